@@ -12,6 +12,7 @@ use rayon::prelude::*;
 use serde_json::{json, Value};
 use std::sync::atomic::{AtomicU64, Ordering};
 use surf_n_term::surface::ViewBounds;
+use surf_n_term::{Color, Image, Position, Shape, Size, Surface, SurfaceMut, SurfaceOwned, RGBA};
 
 const TYPES: [&str; 10] = ["i8", "u8", "i16", "u16", "i32", "u32", "i64", "u64", "isize", "usize"];
 
@@ -104,6 +105,121 @@ fn eval(c: &Case) -> Option<(String, String)> {
             }
         }
     }
+}
+
+// ---------------------------------------------------------------------------------------
+// the entry points that take a selector
+// ---------------------------------------------------------------------------------------
+
+/// (first selected index, extent) read off a surface whose cells hold their own (row, col) in the root surface;
+/// None for an empty surface. `rows`: the selector was applied to the rows.
+fn read_off<S: Surface<Item = (usize, usize)>>(s: &S, rows: bool, origin: usize) -> Option<(usize, usize)> {
+    read_off2(s, rows, rows, origin)
+}
+
+/// `root_row`: the selected axis is the row axis of the ROOT surface (whose coordinates the cells hold);
+/// `height`: the selected axis is the row axis of the surface `s` itself (they differ under a transpose)
+fn read_off2<S: Surface<Item = (usize, usize)>>(s: &S, root_row: bool, height: bool, origin: usize) -> Option<(usize, usize)> {
+    if s.height() == 0 || s.width() == 0 {
+        return None;
+    }
+    let first = s.get(Position::new(0, 0))?;
+    let idx = if root_row { first.0 } else { first.1 };
+    Some((idx - origin, if height { s.height() } else { s.width() }))
+}
+
+fn grid(h: usize, w: usize) -> SurfaceOwned<(usize, usize)> {
+    SurfaceOwned::new_with(Size::new(h, w), |p| (p.row, p.col))
+}
+
+/// Every public way to apply the selector `sel` to an axis of length `n`; each returns what it selected as
+/// (first index, extent) of that axis, or None for an empty selection.
+fn entry_points<R: ViewBounds + Clone>(sel: R, n: usize) -> Vec<(&'static str, Option<(usize, usize)>)> {
+    let mut out: Vec<(&'static str, Option<(usize, usize)>)> = vec![];
+    // Shape::view, rows and columns of a row-major shape
+    {
+        let sh = Shape::from(Size::new(n, 3)).view(sel.clone(), ..);
+        out.push(("Shape::view(rows)", if sh.height == 0 || sh.width == 0 { None } else { Some((sh.start / 3, sh.height)) }));
+        let sh = Shape::from(Size::new(3, n)).view(.., sel.clone());
+        out.push(("Shape::view(cols)", if sh.height == 0 || sh.width == 0 { None } else { Some((sh.start % n.max(1), sh.width)) }));
+    }
+    // Surface::view on an owned surface and on its transpose (column-major parent)
+    {
+        let g = grid(n, 3);
+        out.push(("Surface::view(rows)", read_off(&g.view(sel.clone(), ..), true, 0)));
+        let g = grid(3, n);
+        out.push(("Surface::view(cols)", read_off(&g.view(.., sel.clone()), false, 0)));
+        // transposed: the rows of the transpose are the columns of the root
+        let g = grid(3, n);
+        let t = g.transpose();
+        out.push(("transpose().view(rows)", read_off2(&t.view(sel.clone(), ..), false, true, 0)));
+        let g = grid(n, 3);
+        let t = g.transpose();
+        out.push(("transpose().view(cols)", read_off2(&t.view(.., sel.clone()), true, false, 0)));
+        let mut g = grid(n, 3);
+        out.push(("view_mut(rows)", read_off(&g.view_mut(sel.clone(), ..), true, 0)));
+    }
+    // view_owned, and view_owned of an owned view that is itself a restriction (method calls on the concrete types)
+    {
+        out.push(("view_owned(rows)", read_off(&grid(n, 3).view_owned(sel.clone(), ..), true, 0)));
+        out.push(("view_owned(1..n+1, ..).view_owned(rows)", read_off(&grid(n + 2, 3).view_owned(1..n + 1, ..).view_owned(sel.clone(), ..), true, 1)));
+        out.push(("view_owned(.., 1..n+1).view_owned(cols)", read_off(&grid(3, n + 2).view_owned(.., 1..n + 1).view_owned(.., sel.clone()), false, 1)));
+        out.push(("transpose().view_owned(rows)", read_off2(&grid(3, n).transpose().view_owned(sel.clone(), ..), false, true, 0)));
+    }
+    // Image::crop on a row-major and on a column-major image (pixel (r, c) holds r in red and c in green)
+    {
+        let px = |h: usize, w: usize| SurfaceOwned::new_with(Size::new(h, w), |p| RGBA::new(p.row as u8, p.col as u8, 0, 255));
+        let rd2 = |img: &Image, root_row: bool, height: bool| -> Option<(usize, usize)> {
+            if img.height() == 0 || img.width() == 0 {
+                return None;
+            }
+            let [r, g, _, _] = img.get(Position::new(0, 0))?.to_rgba();
+            Some((if root_row { r as usize } else { g as usize }, if height { img.height() } else { img.width() }))
+        };
+        let rd = |img: &Image, rows: bool| rd2(img, rows, rows);
+        let img = Image::from(px(n, 3));
+        out.push(("Image::crop(rows)", rd(&img.crop(sel.clone(), ..), true)));
+        let img = Image::from(px(3, n));
+        out.push(("Image::crop(cols)", rd(&img.crop(.., sel.clone()), false)));
+        let img = Image::new(px(3, n).transpose());
+        out.push(("column-major Image::crop(rows)", rd2(&img.crop(sel.clone(), ..), false, true)));
+        let img = Image::new(px(n, 3).transpose());
+        out.push(("column-major Image::crop(cols)", rd2(&img.crop(.., sel.clone()), true, false)));
+    }
+    out
+}
+
+macro_rules! with_form {
+    ($form:expr, $a:expr, $b:expr, $x:ident, $body:expr) => {{
+        let (a, b) = ($a as i32, $b as i32);
+        match $form {
+            Form::Index => { let $x = a; $body }
+            Form::Range => { let $x = a..b; $body }
+            Form::From => { let $x = a..; $body }
+            Form::To => { let $x = ..b; $body }
+            Form::Inclusive => { let $x = a..=b; $body }
+            Form::ToInclusive => { let $x = ..=b; $body }
+            Form::Full => { let $x = ..; $body }
+        }
+    }};
+}
+
+/// One selector through every entry point; Some((kind, detail)) on the first disagreement with the reference.
+fn eval_entry_points(form: Form, a: i128, b: i128, n: usize) -> Option<(String, String)> {
+    let expect = resolve(form, a, b, n as i128).map(|(s, e)| (s as usize, (e - s) as usize));
+    let got = match catch(|| with_form!(form, a, b, sel, entry_points(sel, n))) {
+        Err(p) => return Some((format!("entry-point:{}", p.key()), format!("panicked: {} ({}:{})", p.message, p.file, p.line))),
+        Ok(g) => g,
+    };
+    for (name, g) in got {
+        if g != expect {
+            return Some((
+                format!("entry-point:{name}"),
+                format!("{name} on an axis of {n} selects (first index, extent) {:?}, python gives {:?}", g, expect),
+            ));
+        }
+    }
+    None
 }
 
 fn lengths() -> Vec<usize> {
@@ -259,7 +375,29 @@ pub fn run(ctx: &Ctx) -> Result<Report, String> {
         nontrivial.fetch_add(local_nt, Ordering::Relaxed);
     });
 
+    // every public entry point that takes a selector, on axes of 0..=6: i32 selectors with bounds in -9..=9
+    let entry_evals = AtomicU64::new(0);
+    (0..=6usize).into_par_iter().for_each(|n| {
+        for form in Form::ALL {
+            for a in -9i128..=9 {
+                for b in -9i128..=9 {
+                    if (!form.uses_a() && a != 0) || (!form.uses_b() && b != 0) {
+                        continue;
+                    }
+                    entry_evals.fetch_add(1, Ordering::Relaxed);
+                    if let Some((kind, detail)) = eval_entry_points(form, a, b, n) {
+                        let c = Case { t: "i32", form, a, b, n };
+                        let mut w = c.json();
+                        w["entry_points"] = json!(true);
+                        viol.add(format!("{}:{}", form.name(), kind), format!("{}: {}", c.json(), detail), w);
+                    }
+                }
+            }
+        }
+    });
+    evals.fetch_add(entry_evals.load(Ordering::Relaxed) * 17, Ordering::Relaxed);
     let mut r = Report::new("exploration");
+    r.set("entry_point_selectors", json!({"selectors": entry_evals.load(Ordering::Relaxed), "entry_points_each": 17, "what": "Shape::view, Surface::view / view_mut / view_owned (also chained on a restricted owned view and on transposed surfaces), Image::crop on row-major and column-major images"}));
     r.set("evaluations", evals.load(Ordering::Relaxed))
         .set("distinct_nontrivial", nontrivial.load(Ordering::Relaxed))
         .set(
@@ -304,6 +442,12 @@ pub fn replay(w: &Value) -> Result<(bool, String), String> {
     let n = w["n"].as_u64().ok_or("n")? as usize;
     let c = Case { t, form: *form, a, b, n };
     let expect = resolve(c.form, a, b, n as i128);
+    if w["entry_points"].as_bool() == Some(true) {
+        return Ok(match eval_entry_points(*form, a, b, n) {
+            Some((kind, detail)) => (true, format!("case {} expected(python)={:?}: {} [{}]", c.json(), expect, detail, kind)),
+            None => (false, format!("case {} expected(python)={:?}: every entry point agrees", c.json(), expect)),
+        });
+    }
     Ok(match eval(&c) {
         Some((kind, detail)) => (true, format!("case {} expected(python)={:?}: {} [{}]", c.json(), expect, detail, kind)),
         None => (false, format!("case {} expected(python)={:?}: library agrees", c.json(), expect)),
